@@ -887,10 +887,10 @@ func (fr *Frame) loopModifies(h *ssa.BasicBlock) []string {
 				set["$chans"] = true
 			case *ssa.UnOp:
 				if ins.Op == token.ARROW {
-					set["$chans"] = true
+					set[vc.chposComp()] = true
 				}
 			case *ssa.Select:
-				set["$chans"] = true
+				set[vc.chposComp()] = true
 			case ssa.CallInstruction:
 				cm, ok := fr.callModifies(ins)
 				if !ok {
